@@ -41,6 +41,8 @@ type runCase struct {
 	SharedBan bool `json:"shared_ban"`
 	// Mem: the root file is read once; every repetition goes through kit.NewJApiFromFile over the SAME byte slice
 	Mem bool `json:"mem"`
+	// Symlinks: relative path in the project -> link target (as given to os.Symlink)
+	Symlinks map[string]string `json:"symlinks"`
 }
 
 // memFiles: case id -> content of the root file, shared by the repetitions of the case
@@ -128,6 +130,16 @@ func init() {
 			}
 		default:
 			o.FileOps = append(o.FileOps, [2]string{ev, rel(p.base, arg)})
+			if ev == "read" {
+				// where the path really leads (symbolic links resolved), relative to the real project directory
+				if real, err := filepath.EvalSymlinks(arg); err == nil {
+					if rb, err := filepath.EvalSymlinks(p.base); err == nil {
+						if r := rel(rb, real); !strings.HasPrefix(real, "/proc/") && (strings.HasPrefix(r, "..") || strings.HasPrefix(r, "/")) {
+							o.FileOps = append(o.FileOps, [2]string{"read-resolves-to", r})
+						}
+					}
+				}
+			}
 		}
 	}
 }
@@ -220,6 +232,11 @@ func materialise(c *runCase) (string, error) {
 		if err := os.WriteFile(p, data, 0o644); err != nil {
 			return top, err
 		}
+	}
+	for name, target := range c.Symlinks {
+		p := filepath.Join(base, name)
+		os.MkdirAll(filepath.Dir(p), 0o755)
+		os.Symlink(target, p)
 	}
 	for _, n := range c.NoRead {
 		p := filepath.Join(base, n)
